@@ -167,9 +167,12 @@ def gen_case(rng, tier, kind=None, variant=0):
                          weights={'org': 0, 'memzone': 0, 'createZone': 0, 'align': 0, 'zerountil': 0})
     inc2 = [{'k': 'data', 'w': 1, 'vals': [('num', rng.randint(0, 255))]}]
     r = random.Random(rng.randrange(1 << 30))
+    # inc3.asm stands next to main.asm: it is found through the main file's own directory, however that file is named on
+    # the command line
+    inc3 = [{'k': 'data', 'w': 1, 'vals': [('num', rng.randint(0, 255))]}]
     files = {'main.asm': P.render_file(r, stmts[:2] + [{'k': 'include', 'name': 'inc1.asm'}] + stmts[2:] +
-                                        [{'k': 'include', 'name': 'inc2.asm'}]),
-             'lib/inc1.asm': P.render_file(r, inc1), 'other/inc2.asm': P.render_file(r, inc2)}
+                                        [{'k': 'include', 'name': 'inc2.asm'}, {'k': 'include', 'name': 'inc3.asm'}]),
+             'lib/inc1.asm': P.render_file(r, inc1), 'other/inc2.asm': P.render_file(r, inc2), 'inc3.asm': P.render_file(r, inc3)}
     return {'kind': kind, 'isa': P.make_isa(cfg), 'files': files, 'dirs': ['lib', 'other', 'vendor', 'lib/../lib'],
             'symlinks': {'vendor': 'lib'}}
 
@@ -229,11 +232,18 @@ def judge(case, ir, mr):
                     dirs = orders[(hs * len(fmts) + fi) % len(orders)]
                 out = os.path.join(wd, f'o_{hs}_{fmt}.bin')
                 pp = os.path.join(wd, f'p_{hs}_{fmt}.txt')
-                argv = ['compile', '-c', os.path.join(wd, 'isa.yaml'), os.path.join(wd, 'main.asm'), '-o', out, '-p', '-t', fmt,
+                # how the main file is named on the command line carries no meaning either: absolute, bare (its directory is
+                # the working directory), ./name, ../name from a sub-directory (the listing prints the name as given, so the
+                # spelling varies for the other formats only)
+                cwd = wd if hs % 2 == 0 else os.path.join(wd, 'elsewhere')
+                main_arg = os.path.join(wd, 'main.asm')
+                if fmt != 'listing':
+                    main_arg, cwd = [(main_arg, cwd), ('main.asm', wd), ('./main.asm', wd),
+                                     ('../main.asm', os.path.join(wd, 'elsewhere'))][(hs + fi) % 4]
+                argv = ['compile', '-c', os.path.join(wd, 'isa.yaml'), main_arg, '-o', out, '-p', '-t', fmt,
                         '--pretty-print-output', pp]
                 for d in dirs:
                     argv += ['-I', os.path.join(wd, d)]
-                cwd = wd if hs % 2 == 0 else os.path.join(wd, 'elsewhere')
                 jobs.append((hs, fmt, out, pp, argv, cwd, hs % 3 == 0))
         with ThreadPoolExecutor(max_workers=min(16, os.cpu_count() or 4)) as ex:
             res = list(ex.map(lambda j: run_sub(wd, j[4], 101 + 7919 * j[0], j[5], j[6]), jobs))
